@@ -345,14 +345,28 @@ pub fn check_cli(e: &BFCase, text: &str, ctx: &mut Ctx) -> CheckResult {
                 _ => fail!("cli_report", "no report section in one of the two runs"),
             };
             let (r1, r2) = (crate::props::c17::parse_report(&p1), crate::props::c17::parse_report(&p2));
-            ensure!(r1.labels == r2.labels, "cli_same_report", "the report from the emitted files has different lines");
+            ensure!(r1.lists.len() == r2.lists.len(), "cli_same_report", "the report from the emitted files has another number of tables");
             // bound: printing errors of the emitted components, per m2, weighted
             let n = e.b.n as f64;
             let nl = (e.b.lines.len() + 8) as f64;
             let bound = (0.005 * nl * n * 3.0 * 3.0) / e.area as f64 + 0.011;
             let scale: f64 = r1.all_numbers.iter().fold(0.0f64, |m, x| m.max(x.abs()));
-            for (x, y) in r1.all_numbers.iter().zip(r2.all_numbers.iter()) {
-                ensure!((x - y).abs() <= bound + 1e-4 * scale, "cli_same_report", "the original run reports {} and the run from the emitted files {} (bound {})", x, y, bound);
+            // entry by entry; a table entry missing on one side reads as zero (a carrier whose whole
+            // use is below the printed precision disappears from the by-carrier tables)
+            let (m1, m2) = (crate::props::c17::report_map(&r1), crate::props::c17::report_map(&r2));
+            let mut keys: Vec<&String> = m1.keys().chain(m2.keys()).collect();
+            keys.sort();
+            keys.dedup();
+            for k in keys {
+                let empty = vec![];
+                let (a, b) = (m1.get(k).unwrap_or(&empty), m2.get(k).unwrap_or(&empty));
+                if k.starts_with("d:") {
+                    ensure!(a.len() == b.len(), "cli_same_report", "demand line `{}` is {:?} in the original run and {:?} from the emitted files", k, a, b);
+                }
+                for i in 0..a.len().max(b.len()) {
+                    let (x, y) = (a.get(i).cloned().unwrap_or(0.0), b.get(i).cloned().unwrap_or(0.0));
+                    ensure!((x - y).abs() <= bound + 1e-4 * scale, "cli_same_report", "`{}`: the original run reports {} and the run from the emitted files {} (bound {})", k, x, y, bound);
+                }
             }
             Ok(())
         })();
